@@ -41,6 +41,7 @@ def check(ctx):
     S.check_definite_assignment(ctx, "R-definite-assignment")
     S.check_union_refiltered(ctx, "R-union-refiltered")
     S.check_colsample_cover(ctx, "R-colsample-cover")
+    S.check_filter_wrappers(ctx, "R-measure-registry")
 
 
 _D7 = "    # Chi2 statistic\n    measurement = {}\n    if chi2_statistic is None:\n        _, measurement = chi2_measure(x, y, **kwargs)\n        chi2_statistic = measurement.get(\"chi2_statistic\")\n\n    # number of observations\n    n_obs = (notna(x) & notna(y)).sum()\n\n    # number of values taken by the features\n    n_mod_x, n_mod_y = x.nunique(), y.nunique()\n    min_n_mod"
